@@ -212,6 +212,32 @@ func (c *FnCtx) callStatic(fr *Frame, st *State, callee *ssa.Function, args []SV
 				c.noFrame--
 			}
 		}
+		if _, isIface := at.Underlying().(*types.Interface); isIface {
+			// a pointer travelling inside an interface value (json Decode(v any), Unmarshal(..., &x)):
+			// the dependency may write what it points to
+			if iv, ok := a.(If); ok && iv.StaticT != nil {
+				if p, ok := iv.StaticT.Underlying().(*types.Pointer); ok {
+					switch sv := iv.Static.(type) {
+					case Sc:
+						if structOf(p.Elem()) != nil {
+							c.noFrame++
+							c.havocObject(st, p.Elem(), sv.T, 0)
+							c.noFrame--
+						} else {
+							c.addLoc(ms, "cell$"+typeKey(p.Elem()), p.Elem(), false, 0)
+						}
+					case Ad:
+						if sv.Cell != nil {
+							st.cells[*sv.Cell] = c.freshValue(p.Elem(), "ext$cell")
+						} else if sv.Loc != nil {
+							c.noFrame++
+							c.havocLoc(st, sv.Loc, 0)
+							c.noFrame--
+						}
+					}
+				}
+			}
+		}
 	}
 	if len(ms.heaps) > 0 {
 		c.havoc(st, fr, ms, "extern "+full)
